@@ -144,3 +144,50 @@ func VerifHarness_C11_concurrency() {
 	rt.Assert(next.inflight == 0, "C11.concurrency.exports_returned_at_shutdown")
 	rt.Assert(verifLeaked() == 0, "C11.concurrency.no_goroutine_left")
 }
+
+// VerifHarness_C05_shutdown_race: Shutdown is called while requests are still in flight: a slow export
+// holds the only max_concurrency slot, the shard waits for it, and the remaining callers are either
+// already accepted (buffered in the shard's input channel, capacity runtime.NumCPU() = NUMCPU) or parked
+// on that full channel. Then Shutdown runs concurrently with the release of the slow export. Every request
+// whose Consume returns nil was accepted and must be exported exactly once.
+func VerifHarness_C05_shutdown_race() {
+	callers := rt.Param("CALLERS")
+	early := rt.Bool("early")
+	next := &verifNext{gate: make(chan struct{})}
+	bp := verifNewProcessor(next, &verifTracer{}, 1, 0, 0, early, nil, 0, 1)
+	if bp == nil {
+		return
+	}
+	_ = bp.Start(context.Background(), nil)
+	results := make([]error, callers)
+	var wg sync.WaitGroup
+	for c := 0; c < callers; c++ {
+		wg.Add(1)
+		go func(c int) {
+			defer wg.Done()
+			results[c] = bp.ConsumeTraces(context.Background(), verifTraces(int64(100*(c+1)), 1))
+		}(c)
+	}
+	rt.Quiesce() // everyone is now blocked: first export at the gate, shard on the slot, callers queued or parked
+	var sd sync.WaitGroup
+	sd.Add(1)
+	go func() { defer sd.Done(); _ = bp.Shutdown(context.Background()) }()
+	close(next.gate)
+	sd.Wait()
+	wg.Wait()
+	seen := map[int64]int{}
+	for _, e := range next.exports {
+		for _, id := range e.ids {
+			seen[id]++
+		}
+	}
+	for c := 0; c < callers; c++ {
+		id := int64(100 * (c + 1))
+		if results[c] == nil {
+			rt.Assert(seen[id] == 1, "C05.shutdown_race.accepted_exported_once")
+		} else {
+			rt.Assert(seen[id] <= 1, "C05.shutdown_race.refused_at_most_once")
+		}
+	}
+	rt.Assert(next.inflight == 0, "C11.shutdown_race.exports_returned")
+}
